@@ -198,8 +198,8 @@ func (b *unboundBuilder) Parse(s string) (*Literal, error) {
 	if raw[0] != '"' {
 		return nil, fmt.Errorf("literal.Parse: text encoded literals must start with \", missing in %s", raw)
 	}
-	idx := strings.Index(raw, "\"^^type:")
-	if idx < 0 {
+	idx := strings.LastIndex(raw, "\"^^type:")
+	if idx < 1 {
 		return nil, fmt.Errorf("literal.Parse: text encoded literals must have a type; missing in %s", raw)
 	}
 	v := raw[1:idx]
@@ -226,6 +226,9 @@ func (b *unboundBuilder) Parse(s string) (*Literal, error) {
 	case "text":
 		return b.Build(Text, v)
 	case "blob":
+		if len(v) < 2 || v[0] != '[' || v[len(v)-1] != ']' {
+			return nil, fmt.Errorf("literal.Parse: blob value %q should be enclosed in square brackets", v)
+		}
 		values := v[1 : len(v)-1]
 		if values == "" {
 			return b.Build(Blob, []byte{})
@@ -240,7 +243,7 @@ func (b *unboundBuilder) Parse(s string) (*Literal, error) {
 		}
 		return b.Build(Blob, bs)
 	default:
-		return nil, nil
+		return nil, fmt.Errorf("literal.Parse: unknown literal type %q in %s", t, raw)
 	}
 }
 
